@@ -51,10 +51,11 @@ CONTRACTS = {
         params={"key": "str"},
         returns="[str,str,str,str,str,str,str]",
         result_is="key_notes(key)",
+        ensures=[("fresh-list-not-the-memo-row", "is_fresh(result)")],
         raises={"NoteFormatError": "not is_key(key)"},
         modifies=[CACHE],
         split=KEY_SPLIT + [REJECT],
-        properties=["C04"], battery="key_strings",
+        properties=["C04", "C15"], battery="key_strings",
         notes="memo table: complete case split under the invariant 'every entry equals the spec value and every "
               "key of the table is one of the 30 keys' (hit / miss per key; an unknown key is never in the table)",
     ),
